@@ -75,6 +75,11 @@ Theorem greedy_complete_all : forall maxd v u d, 0 < d ->
 Proof. exact greedy_complete_holds. Qed.
 Print Assumptions greedy_complete_all.
 
+(* The model's fuel for the greedy loop always suffices (each round zeroes a positive entry). *)
+Theorem greedy_total : forall v u d, check_feas v u d <> None.
+Proof. exact check_feas_total. Qed.
+Print Assumptions greedy_total.
+
 (* T1.  find_lb returns a lower bound of 2*mGH, for every row-selection oracle. *)
 Theorem lb_sound : forall (pick : oracle) DX DY L,
   dmatrix DX -> dmatrix DY -> find_lb pick DX DY = Some L -> two_mgh_ge DX DY L /\ 0 <= L.
